@@ -243,11 +243,20 @@ static void audit_tree(int t, unsigned props);
 static void check_fresh(void);
 static int untouched(const void *p, size_t n) { const unsigned char *b = p; while (n--) if (*b++ != 0x5A) return 0; return 1; }
 
+/* The node of an element that is not in the tree holds stale bytes (the API takes uninitialised nodes).  Before every operation the node members of
+ * every element outside the tree are put back to the 0x5A garbage the pool starts with: an insert that relies on a link or colour being already set
+ * is seen, and what such nodes hold is a function of the state (the key covers the tree only). */
+static void scrub_free(void)
+{
+    int i;
+    for (i = 0; i < N; i++) if (!m_member[i]) { memset(&pool[i].rn, 0x5A, sizeof pool[i].rn); memset(&pool[i].bn1, 0x5A, sizeof pool[i].bn1); }
+}
 static void w_apply(mc_op_t o)
 {
     int a = OA(o), ab = 0, i;
     static void * volatile rp;
     static const void * volatile par;
+    scrub_free();
     switch (OC(o)) {
     case O_INS:
         SHIM_CALL(ab, t_insert(0, &pool[a], NULL));
@@ -444,6 +453,54 @@ static void audit_tree(int t, unsigned props01)
     }
 }
 
+/* C02 through the public API alone (also the whole C02 verdict of this world when the build cannot name the private colour member): the visit orders of a
+ * complete forward traversal determine the exact SHAPE of the tree (PRE x, left subtree, MID x, right subtree, POST x; LEAF x for a leaf).  A red-black
+ * tree's shape must admit a colouring with a black root, no red node with a red child and equal black counts on every path - decided bottom-up over the set
+ * of feasible (black height, colour) pairs per subtree - and the documented consequence is checked on cstl_rbtree_height. */
+static int sh_pos, sh_n, sh_err;
+/* returns a bit set: bit (2*h) = the subtree can be a valid red-black subtree of black height h with a BLACK root, bit (2*h+1) = with a RED root */
+static unsigned long sh_parse(int *height)
+{
+    unsigned long L = 1ul, R = 1ul, out = 0; int hl = 0, hr = 0, h, x;         /* a missing child: black height 0, counts as black */
+    if (sh_pos >= sh_n) { sh_err = 1; *height = 0; return 0; }
+    x = v_idx[sh_pos];
+    if (v_ord[sh_pos] == CSTL_BINTREE_VISIT_ORDER_LEAF) { sh_pos++; *height = 1; }
+    else {
+        if (v_ord[sh_pos] != CSTL_BINTREE_VISIT_ORDER_PRE) { sh_err = 1; *height = 0; return 0; }
+        sh_pos++;
+        if (sh_pos < sh_n && !(v_ord[sh_pos] == CSTL_BINTREE_VISIT_ORDER_MID && v_idx[sh_pos] == x)) L = sh_parse(&hl);
+        if (sh_err || sh_pos >= sh_n || v_ord[sh_pos] != CSTL_BINTREE_VISIT_ORDER_MID || v_idx[sh_pos] != x) { sh_err = 1; *height = 0; return 0; }
+        sh_pos++;
+        if (sh_pos < sh_n && !(v_ord[sh_pos] == CSTL_BINTREE_VISIT_ORDER_POST && v_idx[sh_pos] == x)) R = sh_parse(&hr);
+        if (sh_err || sh_pos >= sh_n || v_ord[sh_pos] != CSTL_BINTREE_VISIT_ORDER_POST || v_idx[sh_pos] != x) { sh_err = 1; *height = 0; return 0; }
+        sh_pos++;
+        *height = 1 + (hl > hr ? hl : hr);
+    }
+    for (h = 0; h < 30; h++) {
+        int lb = (L >> (2 * h)) & 1, lr = (L >> (2 * h + 1)) & 1, rb = (R >> (2 * h)) & 1, rr = (R >> (2 * h + 1)) & 1;
+        if ((lb || lr) && (rb || rr)) out |= 1ul << (2 * (h + 1));        /* this node black: children of black height h, any colour */
+        if (lb && rb) out |= 1ul << (2 * h + 1);                          /* this node red: both children black, black height h */
+    }
+    return out;
+}
+static void rb_public_audit(void)
+{
+    int ab, h = 0, hh, blackroot = 0; unsigned long f; static volatile int r; size_t hmin = 0, hmax = 0;
+    v_n = 0; v_stop_at = -1;
+    SHIM_CALL(ab, r = t_foreach(0, cb_visit, &vcookie, 0));
+    if (ab || r != 0 || v_n > MAXV) return;       /* judged by C01's audit */
+    sh_pos = 0; sh_n = v_n; sh_err = 0;
+    if (v_n == 0) { f = 1; } else f = sh_parse(&h);
+    if (sh_err || sh_pos != sh_n) return;         /* not a well-formed visit sequence: C01's audit reports that */
+    for (hh = 0; hh < 31; hh++) if ((f >> (2 * hh)) & 1) blackroot = 1;
+    MC_CHECK(PC02, blackroot, "the shape of the tree (reconstructed from the visit orders of a forward traversal, %d elements, height %d) admits no red-black colouring with a black root: the rules cannot hold", m_count, h);
+    SHIM_CALL(ab, cstl_rbtree_height(&T[0].rb, &hmin, &hmax));
+    MC_CHECK(PC02, !ab, "cstl_rbtree_height aborted");
+    if (ab) return;
+    MC_CHECK(PC02, hmax == (size_t)h, "cstl_rbtree_height reports a longest path of %zu, the traversal shows a tree of height %d", hmax, h);
+    MC_CHECK(PC02, hmax < 60 && ((size_t)1 << hmax) <= ((size_t)m_count + 1) * ((size_t)m_count + 1), "cstl_rbtree_height reports a longest path of %zu for %d elements, above 2*log2(n+1)", hmax, m_count);
+}
+
 static void w_audit(void)
 {
     int k;
@@ -474,6 +531,8 @@ static void w_audit(void)
     }
 #endif
     audit_tree(0, PC01);
+    if (mc_branch_dead) return;
+    if (RB) rb_public_audit();
     if (mc_branch_dead) return;
 #if TREE_PRIVATE
     MC_CHECK(PC01, t_size(1) == 0 && t_bt(1)->root == NULL, "the second (empty) tree object was disturbed");
